@@ -21,6 +21,7 @@ type c04case struct {
 	lvl    slog.Level
 	caller bool
 	kvs    []gen.KV
+	attrVals int
 }
 
 func c04gen(r *gen.R) c04case {
@@ -70,7 +71,12 @@ func c04gen(r *gen.R) c04case {
 		default:
 			key = uniq + r.SimpleKey("")
 		}
-		c.kvs = append(c.kvs, gen.KV{Key: key, Val: r.Value(o, 0)})
+		v := r.Value(o, 0)
+		if r.P(5) {
+			v = r.AttrVal(o, 1) // an Attr / group Attr in value position
+			c.attrVals++
+		}
+		c.kvs = append(c.kvs, gen.KV{Key: key, Val: v})
 	}
 	return c
 }
